@@ -129,6 +129,17 @@ def run_for(pid, seed=0, verbose=True, run=None):
 
 
 if __name__ == "__main__":
+    if len(sys.argv) >= 3 and sys.argv[1] == "--only":
+        # one variant against every property it is registered for
+        ms = [m for m in load_corpus() if m["id"] in sys.argv[2:]]
+        bad = 0
+        for m in ms:
+            with ThreadPoolExecutor(max_workers=16) as ex:
+                for r, pid in zip(ex.map(lambda pid: run_one(m, pid), m["props"]), m["props"]):
+                    if r[1] != "ok":
+                        bad = 1
+                    print(f"  {pid} [{r[1]}] {r[0]}: {r[2][:600] if r[1] != 'ok' else r[2][:120]}")
+        sys.exit(bad)
     pids = sys.argv[1:] or sorted({p for m in load_corpus() for p in m["props"]})
     rc = 0
     for pid in pids:
